@@ -14,6 +14,16 @@ pub fn parse_pipeline(def: &ast::PipelineDefinition, context: &mut Context) -> T
         graphics_pipeline_state: None,
     };
 
+    // Pipelines are selected by name so each name may only be used once
+    if context
+        .module
+        .pipelines
+        .iter()
+        .any(|p| p.name.node == def.name.node)
+    {
+        return Err(TyperError::PipelineAlreadyDefined(def.name.clone()));
+    }
+
     // Check for duplicate properties
     for i in 1..def.properties.len() {
         let new_property = &def.properties[i];
